@@ -149,7 +149,7 @@ func cellDSL(c emitCell, opts map[string]string) string {
 	var body string
 	switch c.Kind {
 	case "basic":
-		body = rep + c.Typ + " " + n + ","
+		body = rep + c.spelled() + " " + n + ","
 	case "order":
 		body = c.Typ + " " + n + ", u32 secondField,"
 	case "fixed":
@@ -168,11 +168,15 @@ func cellDSL(c emitCell, opts map[string]string) string {
 		if c.LenAttr {
 			body = "u32 lengthField @lengthOf(" + n + "), "
 		}
-		body += "u16 keyField, match keyField as " + n + " { 1 : A, 2 : A, 3 : B, },"
+		third := "B"
+		if c.Single {
+			third = "A"
+		}
+		body += "u16 keyField, match keyField as " + n + " { 1 : A, 2 : A, 3 : " + third + ", },"
 	case "length":
-		body = c.Typ + " " + n + " @lengthOf(targetField), u8 targetField,"
+		body = c.spelled() + " " + n + " @lengthOf(targetField), u8 targetField,"
 	case "checksum":
-		body = c.Typ + " " + n + " @calculatedFrom(\"crc\"),"
+		body = c.spelled() + " " + n + " @calculatedFrom(\"crc\"),"
 	}
 	return head + "root packet CellPacket { " + body + " }\npacket A { u8 a, }\npacket B { u8 b, }\n"
 }
@@ -420,7 +424,11 @@ func replayEmit(o emitObl, runs []emitRun) map[string]interface{} {
 		show("base")
 	case "variants":
 		txt := t("base")
-		if strings.Count(txt, "A(A)") != 1 || strings.Count(txt, "B(B)") != 1 {
+		wantB := 1
+		if cell.Single {
+			wantB = 0
+		}
+		if strings.Count(txt, "A(A)") != 1 || strings.Count(txt, "B(B)") != wantB {
 			reproduced, observed = true, fmt.Sprintf("the payload enum declares A %d times and B %d times", strings.Count(txt, "A(A)"), strings.Count(txt, "B(B)"))
 		}
 		show("base")
